@@ -135,6 +135,14 @@ def regenerate_drv():
     return out.strip() if rc == 3 else None
 
 
+def regenerate_utils():
+    """tools/gen_utils.py: the stack helpers of utils.rs -> coq/gen/SrcUtils.v; None, or what could not be translated"""
+    rc, out = sh([sys.executable, os.path.join(VERIF, 'tools', 'gen_utils.py'), REPO, os.path.join(COQ, 'gen')])
+    if rc not in (0, 3):
+        raise Infra('gen_utils crashed:\n' + out)
+    return out.strip() if rc == 3 else None
+
+
 def coq_make(target=None, timeout=1500):
     if not os.path.exists(os.path.join(COQ, 'Makefile')):
         sh('coq_makefile -f _CoqProject -o Makefile', cwd=COQ, check=True)
